@@ -23,6 +23,8 @@ var propTable = map[string]propMeta{
 		NotCovered: "functions not under contract; Unmarshal/Recompose (reflection)"},
 	"C07": {Level: "other", Explanation: "Entry points are verified from a havoced prior object state (only the object invariant and the documented option fields are assumed), so the result is a function of the call's arguments; frame obligations prove that only the declared fields and the object's own scratch arrays are written and that the caller's buffer is never written.",
 		NotCovered: "pooled package-level wrappers and writers not yet under contract"},
+	"C20": {Level: "other", Explanation: "Safety sweep: every evaluation function of the asm package is executed symbolically with thin contracts for arbitrary argument lists (argument evaluation opaque); every implicit runtime-fault obligation is discharged; explicit panic(error) is the only way to reject arguments.",
+		NotCovered: "determinism, String()/Simplify() rebuild, documented semantics of each function, $.src non-interference"},
 	"C02": {Level: "other", Explanation: "Number accumulation contracts of gen.Number: exactness of the uint64 accumulation (no wrap-around for any digit count), no digit lost once the big buffer is in use, plain integers that fit int64 stay in the integer accumulator.",
 		NotCovered: "parsers' inline digit loops, AddFrac/AddExp/AsNum, strings and events not yet under contract"},
 }
